@@ -1202,9 +1202,19 @@ func (mo *monitor) newFilterWorld(scratch string, id filter.ID, repl string, use
 }
 
 // load publishes a new list version and makes the filter load it.
-func (fw *fworld) load(ctx context.Context, text string, initial bool) error {
+//
+// oldMtime makes the published file look two days old, far beyond the
+// staleness interval: a list file that was last edited long ago is as valid a
+// source as one written a moment ago.
+func (fw *fworld) load(ctx context.Context, text string, initial, oldMtime bool) error {
 	if err := os.WriteFile(fw.srcPath, []byte(text), 0o644); err != nil {
 		return err
+	}
+	if oldMtime {
+		old := time.Now().Add(-48 * time.Hour)
+		if err := os.Chtimes(fw.srcPath, old, old); err != nil {
+			return err
+		}
 	}
 	fw.mu.Lock()
 	before := fw.hits
@@ -1228,6 +1238,35 @@ func (fw *fworld) load(ctx context.Context, text string, initial bool) error {
 	}
 	fw.prev, fw.cur = fw.cur, parseModel(text)
 	return nil
+}
+
+// checkLoaded runs right after a successful refresh: the storage behind the
+// filter must hold the names of the text that was just published.
+func (mo *monitor) checkLoaded(fw *fworld, rng *rand.Rand, where map[string]any) {
+	m := fw.cur
+	if len(m.names) == 0 {
+		return
+	}
+	n, missed := 60, []string{}
+	for i := 0; i < n; i++ {
+		nm := m.names[rng.IntN(len(m.names))]
+		if !fw.strg.Matches(nm) {
+			missed = append(missed, nm)
+		}
+	}
+	mo.r.Bucket("filter_refresh_content_checks", 1)
+	if len(missed) > 0 {
+		key := "filter:refresh-did-not-load-published-list"
+		if len(missed) == n {
+			key = "filter:refresh-emptied-or-kept-old-list"
+		}
+		w := map[string]any{"filter": string(fw.id), "source_is_file_url": fw.srv == nil, "listed_names_sampled": n,
+			"not_in_storage": len(missed), "examples": missed[:min(5, len(missed))], "published_distinct_names": len(m.names)}
+		for k, v := range where {
+			w[k] = v
+		}
+		mo.r.Violation(key, "a refresh reported success but names of the list it was given are not matched by the storage", w)
+	}
 }
 
 const (
@@ -1523,11 +1562,22 @@ func (mo *monitor) filterWorld() {
 				pn = fw.cur.names
 			}
 			text := genList(rng, mo.pool, size, pn)
-			if err := fw.load(ctx, text, v == 0); err != nil {
+			// File-backed lists mostly look old: always for the first filter, on
+			// alternating versions for the third.
+			oldMtime := fw.srv == nil && (wi == 0 || v%2 == 1)
+			if err := fw.load(ctx, text, v == 0, oldMtime); err != nil {
 				r.Inconclusive(fmt.Sprintf("filter world: loading version %d of %s failed: %v", v, fw.id, err))
 				return
 			}
 			r.Bucket("filter_refreshes", 1)
+			if fw.srv == nil && v > 0 {
+				if oldMtime {
+					r.Bucket("filter_regular_refreshes_from_file_with_old_mtime", 1)
+				} else {
+					r.Bucket("filter_regular_refreshes_from_file_with_fresh_mtime", 1)
+				}
+			}
+			mo.checkLoaded(fw, rng, map[string]any{"version": v, "old_mtime": oldMtime, "initial": v == 0})
 			r.Bucket("listed_lines", int64(fw.cur.count))
 			r.Bucket("listed_distinct_names", int64(len(fw.cur.names)))
 			r.Bucket("listed_duplicate_lines", int64(fw.cur.count-len(fw.cur.names)))
@@ -2214,7 +2264,7 @@ func (mo *monitor) staleWorld() {
 	}
 	allBases := append(append([]string(nil), bases[0]...), bases[1]...)
 
-	if err := fw.load(ctx, texts[0], true); err != nil {
+	if err := fw.load(ctx, texts[0], true, true); err != nil {
 		r.Inconclusive("stale world: initial load failed: " + err.Error())
 		return
 	}
@@ -2323,7 +2373,7 @@ func (mo *monitor) staleWorld() {
 			runtime.Gosched()
 		}
 		refreshing.Store(true)
-		err := fw.load(ctx, texts[newV], false)
+		err := fw.load(ctx, texts[newV], false, round%2 == 0)
 		refreshing.Store(false)
 		done.Store(true)
 		released.Store(true)
@@ -2335,6 +2385,12 @@ func (mo *monitor) staleWorld() {
 			return
 		}
 		r.Bucket("stale_rounds", 1)
+		if round%2 == 0 {
+			r.Bucket("filter_regular_refreshes_from_file_with_old_mtime", 1)
+		} else {
+			r.Bucket("filter_regular_refreshes_from_file_with_fresh_mtime", 1)
+		}
+		mo.checkLoaded(fw, r.Rand("stale/loaded", round), map[string]any{"world": "stale", "round": round, "old_mtime": round%2 == 0})
 		r.Bucket("stale_hook_hits_during_refresh", hits.Load())
 		r.Bucket("stale_readers_parked_during_refresh", int64(parked))
 		r.Bucket("stale_readers_parked_before_storage_switched", int64(parked-parkedAfterSwitch))
@@ -2541,6 +2597,9 @@ func TestCheck(t *testing.T) {
 	r.Require("concurrent_lookups", 30000)
 	r.Require("concurrent_lookups_during_a_reset", 200)
 	r.Require("filter_refreshes", 12)
+	r.Require("filter_regular_refreshes_from_file_with_old_mtime", 8)
+	r.Require("filter_regular_refreshes_from_file_with_fresh_mtime", 3)
+	r.Require("filter_refresh_content_checks", 20)
 	r.Require("storage_matches_expected_true", 500)
 	r.Require("storage_near_miss:prefix-collision", 100)
 	r.Require("storage_near_miss:stale", 100)
